@@ -147,12 +147,17 @@ def multiline_mutant(ch):
     return text
 
 
-def check_parser_error(text):
+def check_parser_error(text, main=None):
+    """`text` is the pattern to compile - or, when `main` is given, the definition of the custom selector `:--x` that the
+    (valid) pattern `main` refers to: the error then belongs to the definition's text and is located in it."""
     sv.purge()
     try:
         with warnings.catch_warnings():
             warnings.simplefilter('ignore')
-            sv.compile(text)
+            if main is None:
+                sv.compile(text)
+            else:
+                sv.compile(main, custom={':--x': text})
     except sv.SelectorSyntaxError as e:
         pattern = text.replace('\x00', '\ufffd')
         m = POS.search(str(e).split('\n')[0])
@@ -277,7 +282,7 @@ def replay(case):
     if 'direct' in case:
         return check_direct(case['direct'][0], case['direct'][1])
     if 'parse' in case:
-        _v, out = check_parser_error(case['parse'])
+        _v, out = check_parser_error(case['parse'], case.get('main'))
         return out
     fails, _ = check_debug_and_pretty(case['text'])
     return fails[0] if fails else None
@@ -285,8 +290,8 @@ def replay(case):
 
 def shrink(case, still, cap):
     if 'parse' in case:
-        r = c06.shrink({'pattern': case['parse'], 'custom': None}, lambda c: still({'parse': c['pattern']}), cap)
-        return {'parse': r['pattern']}
+        r = c06.shrink({'pattern': case['parse'], 'custom': None}, lambda c: still({'parse': c['pattern'], 'main': case.get('main')}), cap)
+        return {'parse': r['pattern'], 'main': case.get('main')}
     return case
 
 
@@ -311,7 +316,14 @@ def shard(ctx):
             col.classify('direct-random')
         elif mode == 'parse':
             text = multiline_mutant(ch)
-            verdict, out = check_parser_error(text)
+            main = None
+            if ch.p(0.15):
+                # the faulty text is the definition of a custom selector used by a valid pattern (a nested parse)
+                main = ch.pick(('article > section.content :--x', ':--x', 'p:--x, a', ':is(div, :--x) > b', 'a\n,\nb :--x'))
+                if ch.p(0.5):
+                    text = ch.pick(('> p', '', ' ', ', a', '+ b', '/* c */', '\n> p', 'p >\n> em', '~', ' \r\n '))
+                col.classify('parse:custom-definition')
+            verdict, out = check_parser_error(text, main)
             col.count()
             col.classify('parse:' + verdict)
             if verdict == 'raised':
@@ -319,8 +331,8 @@ def shard(ctx):
                 if len(lines) > 1:
                     col.nontrivial_case(['parse', text], {'pattern': text[:200], 'lines': len(lines)})
             if out:
-                col.fail(out[0], {'parse': text}, out[1])
-            if verdict != 'valid':
+                col.fail(out[0], {'parse': text, 'main': main}, out[1])
+            if verdict != 'valid' and main is None:
                 # DEBUG changes no result: the same exception, message and location with and without the flag
                 fails, _info = check_debug_and_pretty(text, check_pretty=False)
                 col.count()
